@@ -230,6 +230,47 @@ func TestVerifScenario_F6c(t *testing.T) {
 	in.mu.Unlock()
 }
 
+// F4b (C05): in the recursive branch handleEvent reports a failed registration of a new directory on Errors
+// while it still holds the Watcher's mutex; with nobody receiving from Errors the reader parks there and
+// Remove / Add / WatchList block behind it.
+func TestVerifScenario_F4b(t *testing.T) {
+	old := enableRecurse
+	enableRecurse = true
+	defer func() { enableRecurse = old }()
+	tmp := t.TempDir()
+	w := newWatcher(t)
+	addWatch(t, w, filepath.Join(tmp, "..."))
+	in := w.b.(*inotify)
+	// make the reader find the new directory gone again: hold the mutex while it is created and removed
+	in.mu.Lock()
+	if err := os.Mkdir(filepath.Join(tmp, "gone"), 0o755); err != nil {
+		t.Fatal(err)
+	}
+	if err := os.Remove(filepath.Join(tmp, "gone")); err != nil {
+		t.Fatal(err)
+	}
+	time.Sleep(200 * time.Millisecond) // the reader has read the records and waits for the mutex
+	in.mu.Unlock()
+	time.Sleep(300 * time.Millisecond) // nobody receives from Errors (Events is not the channel in question)
+	done := make(chan struct{})
+	go func() { w.WatchList(); close(done) }()
+	select {
+	case <-done:
+	case <-time.After(3 * time.Second):
+		t.Errorf("WatchList did not return within 3s: the reader is parked in sendError with the mutex held (no one receives from Errors)")
+	}
+	// let everything go
+	go func() {
+		for range w.Errors {
+		}
+	}()
+	go func() {
+		for range w.Events {
+		}
+	}()
+	w.Close()
+}
+
 // ---- regression scenarios for the recursive branch of handleEvent (C19), which is not under contract
 
 func vsCollect(w *Watcher) (stop func() []Event) {
